@@ -1,1 +1,40 @@
-fn main() { println!("{}", verif_lang::common::fbits(1.0)); }
+use verif_lang::common::*;
+use verif_lang::runner::*;
+fn main() {
+    let src = std::fs::read_to_string(std::env::args().nth(1).unwrap()).unwrap();
+    let n: u64 = std::env::args().nth(2).map(|s| s.parse().unwrap()).unwrap_or(8);
+    match VmRun::new(&src, false) {
+        Err(e) => println!("VM compile error: {e:?}"),
+        Ok(mut vm) => {
+            println!("vm skeleton {:?} io {:?}", vm.skeleton(), vm.io());
+            for t in 0..n {
+                #[cfg(mimium_verif)]
+                mimium_lang::runtime::vm::verif_hooks::start();
+                let r = guarded(|| vm.step(t, &[]));
+                #[cfg(mimium_verif)]
+                let tr = mimium_lang::runtime::vm::verif_hooks::take();
+                #[cfg(not(mimium_verif))]
+                let tr: Vec<u8> = vec![];
+                match r {
+                    Ok((rc, out)) => {
+                        #[cfg(mimium_verif)]
+                        println!("vm t={t} rc={rc} out={:?} state={:?} trace={:?}", out, vm.state(), tr);
+                        #[cfg(not(mimium_verif))]
+                        println!("vm t={t} rc={rc} out={:?} {:?}", out, tr);
+                    }
+                    Err(m) => { println!("vm t={t} PANIC {m}"); break; }
+                }
+            }
+        }
+    }
+    match WasmRun::new(&src, false) {
+        Err(e) => println!("WASM compile error: {e:?}"),
+        Ok(mut w) => {
+            println!("wasm skeleton {:?}", w.skeleton());
+            for t in 0..n {
+                let (rc, out) = w.step(t, &[]);
+                println!("wasm t={t} rc={rc} out={:?} state={:?}", out, w.state());
+            }
+        }
+    }
+}
